@@ -39,8 +39,8 @@ def is_q(fl, rf):
 def summary(R, oid, site, f, fl, entries, qev, trace, W, loc):
     """entries: {key: RF}; qev: the quantile_corner call event"""
     why = []
-    q = fl.tab.atom('call', tuple(qev.args + [qev.kw[k] for k in sorted(qev.kw)]),
-                    extra=('fn:quantile_corner',) + tuple(sorted(qev.kw)))
+    from sa.helpers import call_atom
+    q = call_atom(fl, 'quantile_corner', qev.args, qev.kw)
     if len(qev.args) < 2 or not fl.tab.equal(qev.args[0], trace):
         why.append('quantiles of %s, not of the stored trace' % (fmt(fl, qev.args[0]) if qev.args else None))
     if len(qev.args) < 2 or not is_q(fl, qev.args[1]):
